@@ -10,7 +10,7 @@ from typing import Any, get_args
 from typing import Generic
 from typing import NamedTuple
 
-from geneticengine.grammar.decorators import get_gengy
+from geneticengine.grammar.decorators import get_gengy, is_builtin
 from geneticengine.grammar.utils import is_metahandler
 from geneticengine.grammar.utils import all_init_arguments_typed, is_union
 from geneticengine.grammar.utils import get_arguments
@@ -354,7 +354,7 @@ class Grammar:
         starting_symbol.__dict__["__gengy__"]["weight"] = weights[starting_symbol]
         nodes = list()
         for node in self.considered_subtypes:
-            if node in weights:  # classes that are not part of the grammar keep whatever weight they declare
+            if node in weights and not is_builtin(node):  # only grammar classes carry a weight
                 node.__dict__["__gengy__"]["weight"] = weights[node]
             nodes.append(node)
         self.__init__(starting_symbol, nodes, self.expansion_depthing)
